@@ -59,13 +59,22 @@ theorem envRun_inv (f : Sem) (j : Job) (cl : Cluster) (s s' : Sys) (w : Worker) 
     (w, t) ∈ s.env.queued ∧ s'.ctl = s.ctl ∧ s'.inbox = s.inbox := by
   simp only [step] at hs
   split at hs; · cases hs
-  simp only [envStep] at hs
+  simp only [envStepP] at hs
   split at hs
-  · rename_i hc
-    simp only [Option.map_some, Option.some.injEq] at hs; subst hs
-    simp only [Bool.and_eq_true, List.contains_iff_mem] at hc
-    exact ⟨hc.1, rfl, rfl⟩
-  · simp at hs
+  · simp only [envRunSpec] at hs
+    split at hs
+    · rename_i hc
+      simp only [Option.map_some, Option.some.injEq] at hs; subst hs
+      simp only [Bool.and_eq_true, List.contains_iff_mem] at hc
+      exact ⟨hc.1, rfl, rfl⟩
+    · simp at hs
+  · simp only [envStep] at hs
+    split at hs
+    · rename_i hc
+      simp only [Option.map_some, Option.some.injEq] at hs; subst hs
+      simp only [Bool.and_eq_true, List.contains_iff_mem] at hc
+      exact ⟨hc.1, rfl, rfl⟩
+    · simp at hs
 
 theorem invN_step (f : Sem) (j : Job) (cl : Cluster) (x x' : SysN) (st : StepN) (hall : InvAll f j cl x.sys)
     (h : InvN j x) (hs : stepN f j cl x st = some x') : InvN j x' := by
